@@ -28,7 +28,7 @@ ASSUMPTIONS = ["freshness is judged on the arrival sequence (V, T) with T the vi
                "ending with the same element"]
 EXPECTED_PROBES = ["reordered", "duplicate", "wraparound", "near_2_23", "time_rule_plus", "time_rule_minus", "final_response",
                    "final_error_code", "icmp_end", "not_observable", "late_notification_con", "late_notification_non",
-                   "iterator_busy_at_end", "blockwise_wrapper"]
+                   "iterator_busy_at_end", "blockwise_wrapper", "companion_observation"]
 
 M24 = 1 << 24
 M23 = 1 << 23
@@ -69,7 +69,10 @@ def gen(r, tier):
         events.append({"k": kind, "at": round(max(0.5, pos_t), 6), "con": r.chance(0.5)})
     events.sort(key=lambda e: e["at"])
     consumer = {"iter": r.choice([None, 0.0, 0.0, 0.05, 0.5, 3.0]), "callbacks": True}
-    return {"first": first, "events": events, "consumer": consumer, "blockwise": r.chance(0.25)}
+    # a second observation of the same client at the same server (another resource, another token) with a steady
+    # stream of in-order notifications: what happens to one observation must not spill over to the other
+    return {"first": first, "events": events, "consumer": consumer, "blockwise": r.chance(0.25),
+            "companion": r.chance(0.25)}
 
 
 def systematic(tier):
@@ -120,6 +123,23 @@ class NotifyServer(ScriptedEndpoint):
 
     def handle(self, msg, src, data):
         if msg is None:
+            return
+        if 1 <= msg["code"] < 32 and rc.opt1(msg, rc.URI_PATH) == b"other" and rc.opt1(msg, rc.OBSERVE) is not None:
+            if getattr(self, "companion", None) is None:
+                self.companion = (src, msg["token"], self.loop.now)
+                self.send(src, msg={"type": rc.ACK if msg["type"] == rc.CON else rc.NON, "code": rc.CONTENT, "mid": msg["mid"],
+                                    "token": msg["token"], "options": [(rc.OBSERVE, rc.uint_bytes(1000))],
+                                    "payload": b"c-first"}, fate=["deliver", 0.005])
+                horizon = max([e["at"] for e in self.scn["events"]] + [1.0]) + 150.0
+                t, k = 0.7, 0
+                self.companion_sent = []
+                while t < horizon and k < 60:
+                    k += 1
+                    self.send(src, msg={"type": rc.NON, "code": rc.CONTENT, "mid": 0x6000 + k, "token": msg["token"],
+                                        "options": [(rc.OBSERVE, rc.uint_bytes(1000 + k))], "payload": b"c%d" % k},
+                              fate=["at", self.loop.now + t])
+                    self.companion_sent.append((self.loop.now + t, b"c%d" % k))
+                    t = t * 1.6 + 0.37
             return
         if 1 <= msg["code"] < 32 and self.registered is None and rc.opt1(msg, rc.OBSERVE) is not None:
             self.registered = (src, msg["token"], self.loop.now)
@@ -219,8 +239,32 @@ def execute(sim, scn):
                     sim.log("app", "iter-end", type(e).__name__)
             loop.create_task(consume())
 
+    comp_log = []
+    comp_err = []
+
+    def start_companion():
+        sim.probe("companion_observation")
+        req = client.request(Message(code=GET, uri="coap://[%s]/other" % server.addr[0], observe=0), handle_blockwise=False)
+        state["companion"] = req
+        req.observation.register_callback(lambda m: comp_log.append((loop.now, bytes(m.payload))))
+        req.observation.register_errback(lambda e: comp_err.append((loop.now, e)))
+
     loop.at(0.0, start)
+    if scn.get("companion"):
+        loop.at(0.0, start_companion)
     sim.run()
+    if scn.get("companion") and getattr(server, "companion", None) is not None:
+        # the companion's stream is in order and loss-free: every notification is handed over, once, in order -- up to
+        # a transport error reported for the server (which legitimately ends both observations)
+        t_icmp = min([ev[0] for ev in sim.events if ev[1] == "icmp-inject"] + [float("inf")])
+        expect = [p for (t, p) in server.companion_sent if t < t_icmp - TOL]
+        got = [p for (t, p) in comp_log if t < t_icmp - TOL]
+        if got != expect:
+            sim.violation("C07/other-observation-disturbed", {"expected": len(expect), "got": len(got),
+                                                              "first_difference": next((i for i, (a, b) in enumerate(zip(got, expect)) if a != b),
+                                                                                       min(len(got), len(expect)))})
+        if comp_err and comp_err[0][0] < t_icmp - TOL:
+            sim.violation("C07/other-observation-ended", {"t": comp_err[0][0], "error": repr(comp_err[0][1])})
 
     # ------------------------------------------------------------------ oracle
     ident = {"first_observe": scn["first"]["observe"], "blockwise": bool(scn.get("blockwise")),
